@@ -249,6 +249,79 @@ fn judge(ctx: &mut Ctx, class: &str, file: &[u8], without: &[u8], expect: Option
     }
 }
 
+/// "An sRGB chunk overrides the reported gamma and chromaticities": files that carry gAMA and cHRM with values that are NOT the sRGB
+/// ones together with an sRGB chunk, in every order, and the same files without the sRGB chunk; what the ACCESSORS `Info::gamma()` /
+/// `Info::chromaticities()` report (the canonical Info string prints the stored chunk values only): with sRGB the specification's
+/// substitutes (gamma 45455; white 31270,32900; red 64000,33000; green 30000,60000; blue 15000,6000), without it the chunk values.
+fn srgb_override_part(ctx: &mut Ctx, rng: &mut Rng) {
+    const SUB_GAMMA: u32 = 45455;
+    const SUB_CHRM: [u32; 8] = [31270, 32900, 64000, 33000, 30000, 60000, 15000, 6000];
+    for k in 0..ctx.n(60, 400) {
+        let mut r = rng.fork(4400 + k as u64);
+        let b = base_file(&mut r);
+        let g: u32 = *r.pick(&[1u32, 100000, 22222, 45454, 45456, u32::MAX]);
+        let c: Vec<u32> = (0..8).map(|i| if r.chance(1, 4) { SUB_CHRM[i] } else { r.next() as u32 % 100001 }).collect();
+        let mut cb = vec![];
+        for v in &c {
+            cb.extend_from_slice(&v.to_be_bytes());
+        }
+        let intent = r.below(4) as u8;
+        let order = k % 6;
+        let with_srgb = k % 5 != 4;
+        let (have_g, have_c) = (k % 7 != 3, k % 7 != 5);
+        let mut extra: Vec<RawChunk> = vec![];
+        let sr = RawChunk::new(b"sRGB", vec![intent]);
+        let ga = RawChunk::new(b"gAMA", g.to_be_bytes().to_vec());
+        let ch = RawChunk::new(b"cHRM", cb.clone());
+        let seq: Vec<u8> = match order { 0 => vec![0, 1, 2], 1 => vec![0, 2, 1], 2 => vec![1, 0, 2], 3 => vec![1, 2, 0], 4 => vec![2, 0, 1], _ => vec![2, 1, 0] };
+        for x in seq {
+            match x {
+                0 if with_srgb => extra.push(sr.clone()),
+                1 if have_g => extra.push(ga.clone()),
+                2 if have_c => extra.push(ch.clone()),
+                _ => {}
+            }
+        }
+        let mut cs = b.chunks.clone();
+        let at = b.plte_at.unwrap_or(b.idat_at).min(b.idat_at);
+        for (i, c) in extra.into_iter().enumerate() {
+            cs.insert(at + i, c);
+        }
+        let file = serialize(&cs);
+        ctx.rep.eval(true, fnv64(&file));
+        ctx.rep.count("case", if with_srgb { "sRGB together with gAMA / cHRM: accessors" } else { "gAMA / cHRM without sRGB: accessors" });
+        let filec = file.clone();
+        let res = crate::util::guarded(move || -> Result<(Option<u32>, Option<[u32; 8]>), String> {
+            let rd = png::Decoder::new(std::io::Cursor::new(filec)).read_info().map_err(|e| format!("read_info: {}", e))?;
+            let i = rd.info();
+            let cc = i.chromaticities().map(|c| [c.white.0.into_scaled(), c.white.1.into_scaled(), c.red.0.into_scaled(), c.red.1.into_scaled(), c.green.0.into_scaled(), c.green.1.into_scaled(), c.blue.0.into_scaled(), c.blue.1.into_scaled()]);
+            Ok((i.gamma().map(|g| g.into_scaled()), cc))
+        });
+        let case = || J::obj().set("class", J::s("srgb-override")).set("file", J::s(&hex(&file))).set("without", J::s(&hex(&file))).set("expect", J::s("")).set("absent", J::s(""));
+        let want_g = if with_srgb { Some(SUB_GAMMA) } else if have_g { Some(g) } else { None };
+        let mut want_c = None;
+        if with_srgb {
+            want_c = Some(SUB_CHRM);
+        } else if have_c {
+            let mut a = [0u32; 8];
+            a.copy_from_slice(&c);
+            want_c = Some(a);
+        }
+        match res {
+            Err(p) => ctx.rep.violation("oracle", "panic/srgb-override", &format!("decoder panicked: {}", p), case()),
+            Ok(Err(e)) => ctx.rep.violation("oracle", "pixels-affected/srgb-override", &format!("a file with well-formed sRGB / gAMA / cHRM chunks is refused: {}", e), case()),
+            Ok(Ok((gg, cc))) => {
+                if gg != want_g {
+                    ctx.rep.violation("oracle", "accessor/gamma", &format!("Info::gamma() = {:?}, expected {:?} (sRGB chunk {}, gAMA {})", gg, want_g, if with_srgb { "present" } else { "absent" }, if have_g { g.to_string() } else { "absent".into() }), case());
+                }
+                if cc != want_c {
+                    ctx.rep.violation("oracle", "accessor/chromaticities", &format!("Info::chromaticities() = {:?}, expected {:?} (sRGB chunk {}, cHRM {})", cc, want_c, if with_srgb { "present" } else { "absent" }, if have_c { "present" } else { "absent" }), case());
+                }
+            }
+        }
+    }
+}
+
 /// `Decoder::set_ignore_text_chunk(true)` / `Decoder::set_ignore_iccp_chunk(true)` on a `Decoder::new(..)` (the PUBLIC switches):
 /// the text chunks / the ICC profile are absent from Info, pixels and all other metadata are unchanged - the complete canonical
 /// result (Info at read_info, every frame, finish, Info at the end) equals that of the same file built WITHOUT those chunks,
@@ -457,6 +530,7 @@ pub fn run(ctx: &mut Ctx) {
     }
     let mut r = rng.fork(0x16_5e7);
     ignore_switches_part(ctx, &mut r);
+    srgb_override_part(ctx, &mut r);
 }
 
 pub fn replay(ctx: &mut Ctx, case: &J) {
